@@ -10,7 +10,11 @@
 (*         "directory"                                                     *)
 (* out   : "stdout" | "newfile" | "existing" | "nodir" | "isdir"           *)
 (* parser: "quick-xml-de" | "serde-xml-rs";  sort: "unsorted" | "name"     *)
-(* derive: any string (sequence of characters), default as in args.rs      *)
+(* derive: any string (sequence of characters)                             *)
+(* each of the three may also be "ABSENT" (derive: <<"ABSENT">>): the     *)
+(* option is not given and the                                             *)
+(* default of args.rs applies (quick-xml-de / "Serialize, Deserialize" /   *)
+(* unsorted)                                                               *)
 (***************************************************************************)
 EXTENDS Render
 
@@ -18,9 +22,12 @@ InputKinds == {"valid", "malformed", "noelement", "nonutf8", "missing", "directo
 OutKinds == {"stdout", "newfile", "existing", "nodir", "isdir"}
 
 \* args.rs: From<ParserArg> for Options, then .derive(..) and .sort = ..
+AbsentDerive == <<"ABSENT">>      \* (not a string in the sense of Strings.tla: its one item has six characters)
+DefaultDerive == <<"S","e","r","i","a","l","i","z","e",","," ","D","e","s","e","r","i","a","l","i","z","e">>
 OptsOf(parser, derive, sort) ==
-  [(IF parser = "quick-xml-de" THEN QuickXmlDe ELSE SerdeXmlRs)
-     EXCEPT !.derive = derive, !.sort = IF sort = "name" THEN "XmlName" ELSE "Unsorted"]
+  [(IF parser \in {"quick-xml-de", "ABSENT"} THEN QuickXmlDe ELSE SerdeXmlRs)
+     EXCEPT !.derive = IF derive = AbsentDerive THEN DefaultDerive ELSE derive,
+            !.sort = IF sort = "name" THEN "XmlName" ELSE "Unsorted"]
 
 Start(input, out, parser, derive, sort) ==
   [pc |-> "start", input |-> input, out |-> out, opts |-> OptsOf(parser, derive, sort),
